@@ -22,7 +22,7 @@ def selftest(tier):
 
 
 def obligations(tier, seed):
-    t = 400 if tier == 'quick' else 1800
+    t = 900 if tier == 'quick' else 2400
     return [
         dict(name='C03.rename_binding', fn='rename_binding', shards=plan(skeletons.TEMPLATES, tier, seed, 20), timeout=t,
              bounds='see META; quick = seeded rotation of 20 skeletons', public_replay='public_rename_binding'),
